@@ -364,7 +364,7 @@ func runContained(tw *TraceWriter, sub string, items []json.RawMessage, first in
 		}
 		tw.Traces++
 		tw.Stats["behaviours_that_killed_the_process"]++
-		tw.Emit(Rec{"ev": "Crash", "trace": first + lo, "msg": line, "behaviour": string(items[lo])})
+		tw.Emit(Rec{"ev": "Crash", "op": "Crash", "trace": first + lo, "msg": line, "behaviour": string(items[lo])})
 	}
 	for lo := 0; lo < len(items); lo += batch {
 		hi := lo + batch
